@@ -266,6 +266,16 @@ func H_C01_ie() {
 	if prof == 4 {
 		e.pc.nodeID.remote = ""
 	}
+	if kind == 0 {
+		// a Heartbeat Request also resets the agent's own heartbeat timer: with the
+		// timer enabled and the reset channel already full (no monitor draining it,
+		// or a burst of peer heartbeats) the receive loop must still not block
+		e.u.enableHBTimer = vBool("hb_timer")
+		if vBool("hb_reset_backlog_full") {
+			e.pc.hbReset = make(chan struct{}, 1)
+			e.pc.hbReset <- struct{}{}
+		}
+	}
 	var up uint64
 	if sessionExists {
 		vTag("after-establishment")
